@@ -64,7 +64,29 @@ def cells():
                 for trait, exp in (("Send", exp_send), ("Sync", False)):
                     out.append({"handle": hname, "payload": pname, "closure": fname, "trait": trait,
                                 "type": ty, "expected": exp})
+    # the wait strategy every handle carries (Arc<dyn Wait>): a custom strategy
+    # may be given to the *_with constructors only if it is Send + Sync, since
+    # the handles' Send-ness does not depend on it
+    for ctor in ("broadcast_queue_with", "mpmc_queue_with"):
+        for wname, (field, wok) in WAITS.items():
+            prog = ("""pub struct W(%s);
+impl multiqueue2::wait::Wait for W {
+    fn wait(&self, _: usize, _: &std::sync::atomic::AtomicUsize, _: &std::sync::atomic::AtomicUsize) {}
+    fn notify(&self) {}
+    fn needs_notify(&self) -> bool { false }
+}
+pub fn probe(w: W) { let _ = multiqueue2::%s::<u32, W>(4, w); }
+""" % (field, ctor))
+            out.append({"handle": ctor, "payload": "wait-strategy:" + wname, "closure": "-", "trait": "accepted",
+                        "type": "W(%s)" % field, "expected": wok, "program": prog})
     return out
+
+
+WAITS = {
+    "send+sync": ("u32", True),
+    "send-only": ("std::cell::Cell<u32>", False),
+    "neither": ("std::rc::Rc<u32>", False),
+}
 
 
 def build_lib():
@@ -86,7 +108,10 @@ def compile_cell(args):
     i, c, deps, rlib = args
     src = os.path.join(WORK, "p%d.rs" % i)
     fn = "need_send" if c["trait"] == "Send" else "need_sync"
-    open(src, "w").write(PRELUDE + "pub fn probe() { %s::<%s>(); }\n" % (fn, c["type"]))
+    if "program" in c:
+        open(src, "w").write(PRELUDE + c["program"])
+    else:
+        open(src, "w").write(PRELUDE + "pub fn probe() { %s::<%s>(); }\n" % (fn, c["type"]))
     r = subprocess.run(["rustc", "--edition", "2018", "--crate-type", "lib", "--emit=metadata",
                         "-o", os.path.join(WORK, "p%d.rmeta" % i), "-L", "dependency=" + deps,
                         "--extern", "multiqueue2=" + rlib, "--cap-lints", "allow", src],
